@@ -791,6 +791,12 @@ static ASMJIT_INLINE Error rw_handle_avx512(const BaseInst& inst, const InstDB::
     // AVX-512 instruction that uses a destination with {k} register (zeroing vs masking).
     out->_extra_reg.add_op_flags(OpRWFlags::kRead);
     out->_extra_reg.set_read_byte_mask(0xFF);
+
+    // Gather and scatter instructions clear the bits of the mask register as elements complete, so {k} is also written.
+    if (common_info.is_vsib_op()) {
+      out->_extra_reg.add_op_flags(OpRWFlags::kWrite);
+      out->_extra_reg.set_write_byte_mask(0xFF);
+    }
     if (!inst.has_option(InstOptions::kX86_ZMask) && !common_info.has_avx512_flag(InstDB::Avx512Flags::kImplicitZ)) {
       out->_operands[0].add_op_flags(OpRWFlags::kRead);
       out->_operands[0]._read_byte_mask |= out->_operands[0]._write_byte_mask;
